@@ -133,3 +133,15 @@ def run(ctx):
     for k in ("evaluations", "distinct_nontrivial", "traces_validated_against_impl", "disagreements", "monitor_failures"):
         ctx.coverage[k] = ctx.coverage.get(k, 0) + cov1.get(k, 0)
     ctx.coverage["distribution_sync"] = cov1.get("distribution")
+    # events used as callbacks (`after="next_event"`, the documented way of chaining): queued behind everything already
+    # waiting and returning None under run-to-completion, run at once under rtc=False (no Spec monitor here: trigger
+    # ids cannot be tracked through the library's own forwarding; the comparison with the model decides)
+    import gen
+    from props.c14 import PROFILE_CHAIN
+    cov2 = dict(ctx.coverage)
+    engine_check(ctx, PROFILE_CHAIN, 200, 4000, gen.chain_nontrivial, tag="C03c", mutate=gen.plant_evrefs)
+    ctx.coverage["chain_scenarios"] = ctx.coverage.get("evaluations", 0)
+    for k in ("evaluations", "distinct_nontrivial", "traces_validated_against_impl", "disagreements", "monitor_failures"):
+        ctx.coverage[k] = ctx.coverage.get(k, 0) + cov2.get(k, 0)
+    ctx.coverage["distribution_chain"] = ctx.coverage.get("distribution")
+    ctx.coverage["distribution"] = cov2.get("distribution")
